@@ -67,3 +67,43 @@ Example C07_intertwine_example :
   slift 4 (pi_conv 2) (cre (pos_of 2 true 1) [true; false; false; true]) 0 = Some (true, [false; true; true; true])
   /\ build 4 (pi_conv 2) 0 [true; false; false; true] = Some (true, [false; true; true; false]).
 Proof. vm_compute. split; reflexivity. Qed.
+
+(* other linear binary codes (CodeThm.v): any code with a decoder on 2 norb modes (an invertible GF(2) matrix) exports
+   injectively; the parity code (qubit k = parity of modes 0..k) has one for every number of modes *)
+From FQE Require Import CodeThm.
+Theorem C07_export_injective_for_invertible_codes :
+  forall norb (c : code) (dec : det -> det) a b a' b' s s' ix,
+  (forall e, length e = 2 * norb -> dec (encode c e) = e) ->
+  export_det norb c a b = Some (s, ix) -> export_det norb c a' b' = Some (s', ix) ->
+  det_conv norb a b = det_conv norb a' b'.
+Proof. exact export_det_injective_of_decoder. Qed.
+Print Assumptions C07_export_injective_for_invertible_codes.
+
+Theorem C07_parity_code_invertible : forall d, dpx false (encode (parity_code (length d)) d) = d.
+Proof. exact parity_decode_encode. Qed.
+Print Assumptions C07_parity_code_invertible.
+
+Theorem C07_export_parity_injective : forall norb a b a' b' s s' ix,
+  export_det norb (parity_code (2 * norb)) a b = Some (s, ix) ->
+  export_det norb (parity_code (2 * norb)) a' b' = Some (s', ix) ->
+  det_conv norb a b = det_conv norb a' b'.
+Proof. exact export_det_parity_injective. Qed.
+Print Assumptions C07_export_parity_injective.
+
+Example C07_parity_code_example : parity_code 3 = [[0]; [0; 1]; [0; 1; 2]] /\
+  encode (parity_code 4) [true; false; true; true] = [true; true; false; true].
+Proof. vm_compute. split; reflexivity. Qed.
+
+(* every lower-unitriangular code (row k = modes below k, then k: the Jordan-Wigner, parity and Bravyi-Kitaev encoders) is
+   injective; `unitri` is a checkable predicate (extracted; the correspondence evaluates it on every code it exports with) *)
+Theorem C07_unitriangular_codes_injective : forall c d d',
+  unitri c = true -> length d = length c -> length d' = length c -> encode c d = encode c d' -> d = d'.
+Proof. exact encode_unitri_injective. Qed.
+Print Assumptions C07_unitriangular_codes_injective.
+
+Theorem C07_export_injective_unitriangular : forall norb (c : code) a b a' b' s s' ix,
+  unitri c = true -> length c = 2 * norb ->
+  export_det norb c a b = Some (s, ix) -> export_det norb c a' b' = Some (s', ix) ->
+  det_conv norb a b = det_conv norb a' b'.
+Proof. exact export_det_injective_unitri. Qed.
+Print Assumptions C07_export_injective_unitriangular.
